@@ -83,3 +83,56 @@ Example path_found_example :
 Proof.
   split; [simpl; auto 10 |]. eexists; split; [vm_compute; reflexivity | simpl; auto].
 Qed.
+
+(** * Code-level theorems (added by the coordinator from the builders' lemma libraries)
+
+    The statements above are about the ABSTRACT worklist.  The statements below are about the two models that are tied
+    to the real code on every run:
+    - [Model/Visit.v], the case-by-case model of [taint.Visitor.Visit]/[addNext] (tie: tools/props/travlib.py — every
+      recorded expansion of the real visitor equals the model's, sink-hit and visited-key sets equal);
+    - [Model/Intra.v], the rule system whose closure is checked on the real intra-procedural output (T-cert, C08).
+    Modules are required without Import (their names clash with Base/Closure.v). *)
+From Argot Require Model.Visit Model.Intra Proofs.VisitBase Proofs.VisitInv Proofs.VisitClosure Proofs.VisitStop Proofs.Intra.
+From Coq Require NArith.
+
+(** the real traversal = least set containing the root and closed under its own one-step successor function (up to
+    key equality); the reported sink hits are exactly the visited sink nodes: nothing reachable in the key graph the
+    traversal itself generates is skipped, for every graph and every map-iteration order *)
+Theorem visit_closure : forall (g : Visit.graph) (P : Visit.preds) (cfg : Visit.config) (ord : VisitBase.oracle)
+    (src : Visit.id) (fuel : nat) (t : list Visit.id) (al : BinNums.N) (st : Visit.state),
+  Visit.visit g P cfg ord src fuel t al = Visit.Done st ->
+  let V := List.rev (Visit.st_visited st) in
+  List.hd_error V = Some (Visit.root_vnode src t) /\
+  (forall (i : nat) (v : Visit.vnode), List.nth_error V i = Some v ->
+     forall w : Visit.vnode, List.In w (VisitClosure.succs_at g P cfg ord src (BinNat.N.of_nat i) v) ->
+     exists w' : Visit.vnode, List.In w' V /\ Visit.vkey w' = Visit.vkey w) /\
+  (forall (p : nat) (w : Visit.vnode), List.nth_error V p = Some w -> p <> 0 ->
+     exists (i : nat) (v : Visit.vnode),
+       i < p /\ List.nth_error V i = Some v /\ List.In w (VisitClosure.succs_at g P cfg ord src (BinNat.N.of_nat i) v)) /\
+  List.NoDup (List.map Visit.vkey (List.tl V)) /\
+  Visit.st_hits st = List.filter (VisitClosure.is_sink_stop g P cfg) (Visit.st_visited st).
+Proof. exact VisitClosure.visit_closure_lemma. Qed.
+
+(** a dequeued node is left unexpanded exactly when it is filtered / a sink in default tracing / a sanitizer /
+    unconstructed-and-ignored: no other pruning exists in the traversal *)
+Theorem visit_stop_exact : forall (g : Visit.graph) (P : Visit.preds) (cfg : Visit.config) (v : Visit.vnode)
+    (r : Visit.stop_reason),
+  Visit.stop_of g P cfg v = Visit.Ok (Some r) <-> VisitStop.stop_spec g P cfg v r.
+Proof. exact VisitStop.sanitizer_stop_exact_lemma. Qed.
+
+(** intra-procedural half: ANY fact set closed under the rule system covers every def-use chain of the function; the
+    extracted validator [check_closed] run on the real analysis' output is sound for that conclusion *)
+Theorem intra_closed_covers_chains : forall (F : Intra.func) (S : Intra.fact -> Prop),
+  Intra.closed F S -> Intra.wf_ssa F -> Intra.covers_chains F S.
+Proof. exact Proofs.Intra.closed_covers_chains. Qed.
+
+Theorem intra_tcert_sound : forall (F : Intra.func) (l : list Intra.fact),
+  Intra.check_wf_ssa F = true -> Intra.check_closed F l = true ->
+  Intra.covers_chains F (fun f : Intra.fact => List.In f l).
+Proof. exact Proofs.Intra.tcert_sound. Qed.
+
+(** What is still missing for the full statement [taint_sound] of DESIGN §4 C01: (1) the semantic link "µSSA execution
+    moves a marker ⇒ def-use chain / alias path" (no Coq semantics of Go SSA was built for C01), (2) [visit_complete] for
+    realizable paths of the linked graph (the closure theorem is relative to the successor function the traversal itself
+    uses; [order_dep_refuted] in Properties/C06.v shows that function depends on more than the key).  Both gaps are
+    covered only by the native ground-truth search of tools/props/c01.py. *)
